@@ -11,7 +11,7 @@ use vmodel::wire::{hex_short, Enc};
 pub const DEF: PropDef = PropDef {
     id: "C11",
     title: "Unknown enumerated code points are accepted and preserved, not rejected",
-    rule: "complete enumeration per field: for each of 41 (field, enclosing structure) pairs every value of the field's domain (256 or 65536; alert level x description and \
+    rule: "complete enumeration per field: for each of 44 (field, enclosing structure) pairs every value of the field's domain (256 or 65536; alert level x description and \
            hash x signature as 65536 pairs) is written into an otherwise well-formed structure built by the model encoders, parsed, and read back from the parsed value. \
            Surrounding values come from k seeded template variants (quick k = 2, thorough k = 25). Non-trivial = a value that has no named constant in the harness's IANA tables; \
            distinct by (field, value).",
@@ -319,6 +319,53 @@ fn specs() -> Vec<Spec> {
         Spec { name: "DTLS alert level x description", bits: 16, registry: None, probe: |v, t| {
             let r = MDtlsRecord { ctype: 0x15, version: 0xfefd, epoch: t.u16(), seq: 1, msgs: vec![MDtlsMsg::Alert((v >> 8) as u8, v as u8)] };
             match parse_dtls_plaintext_record(&r.to_bytes()).map_err(err)?.1.messages.first() { Some(DTLSMessage::Alert(a)) => Ok((a.severity.0 as u32) << 8 | a.code.0 as u32), o => Err(format!("{:?}", o)) }
+        } },
+        Spec { name: "alert level x description (alert that follows a fatal alert and a close_notify in the same record)", bits: 16, registry: None, probe: |v, t| {
+            // the pair under test in three positions: after a warning, after a fatal alert, after a close_notify
+            let (l, d) = ((v >> 8) as u8, v as u8);
+            let b = rec(0x15, t.u16(), &[1, 90, l, d, 2, 40, l, d, 1, 0, l, d]);
+            let p = parse_tls_plaintext(&b).map_err(err)?.1;
+            let got: Vec<(u8, u8)> = p.msg.iter().filter_map(|m| if let TlsMessage::Alert(a) = m { Some((a.severity.0, a.code.0)) } else { None }).collect();
+            if got != vec![(1, 90), (l, d), (2, 40), (l, d), (1, 0), (l, d)] {
+                return Err(format!("six alerts written, read back {:?}", got));
+            }
+            Ok(v)
+        } },
+        Spec { name: "DTLS alert level x description (after a fatal alert and a close_notify in the same record)", bits: 16, registry: None, probe: |v, t| {
+            let (l, d) = ((v >> 8) as u8, v as u8);
+            let r = MDtlsRecord { ctype: 0x15, version: 0xfefd, epoch: t.u16(), seq: 1, msgs: vec![MDtlsMsg::Alert(2, 40), MDtlsMsg::Alert(l, d), MDtlsMsg::Alert(1, 0), MDtlsMsg::Alert(l, d)] };
+            let bytes = r.to_bytes();
+            let p = parse_dtls_plaintext_record(&bytes).map_err(err)?.1;
+            let got: Vec<(u8, u8)> = p.messages.iter().filter_map(|m| if let DTLSMessage::Alert(a) = m { Some((a.severity.0, a.code.0)) } else { None }).collect();
+            if got != vec![(2, 40), (l, d), (1, 0), (l, d)] {
+                return Err(format!("four alerts written, read back {:?}", got));
+            }
+            Ok(v)
+        } },
+        Spec { name: "record version (later fragment handed to TlsRecordsParser)", bits: 16, registry: Some(&ia::VERSION), probe: |v, t| {
+            // a handshake message split over three records: the first carries version a, the others the version under test and a third one;
+            // the record version selects nothing, so the message is reassembled and the last record's header values are whatever they were
+            let body = t.small_blob(24);
+            let m = MHs::Finished(body.clone()).to_bytes();
+            let cut1 = 1 + t.below(m.len() - 2);
+            let cut2 = cut1 + t.below(m.len() - cut1);
+            let mut p = TlsRecordsParser::default();
+            let recs = [(t.u16(), &m[..cut1]), (v as u16, &m[cut1..cut2]), (v as u16 ^ t.u16(), &m[cut2..])];
+            let mut last = Err("no record".to_string());
+            for (i, (ver, data)) in recs.iter().enumerate() {
+                let raw = TlsRawRecord { hdr: TlsRecordHeader { record_type: TlsRecordType::Handshake, version: TlsVersion(*ver), len: data.len() as u16 }, data };
+                match p.parse_record(raw) {
+                    Ok((_, msgs)) if i == 2 => {
+                        last = match msgs.first() {
+                            Some(TlsMessage::Handshake(TlsMessageHandshake::Finished(f))) if *f == body.as_slice() => Ok(v),
+                            o => Err(format!("reassembled to {:?}", o)),
+                        }
+                    }
+                    Err(tls_parser::nom::Err::Incomplete(_)) if i < 2 => {}
+                    o => return Err(format!("fragment {} (record version {:#06x}) answered {:?}", i + 1, ver, o.map(|x| x.1.len()).map_err(|e| e.map(|x| x.code)))),
+                }
+            }
+            last
         } },
     ]
 }
